@@ -26,6 +26,9 @@ mod imp {
     pub fn release_token() -> VC {
         Vec::new()
     }
+    pub fn release_token_buffered() -> VC {
+        Vec::new()
+    }
     pub fn acquire_token(_: &VC) {}
 }
 
@@ -321,13 +324,21 @@ mod imp {
     }
     /// memory is being returned to the allocator: drop all metadata for it
     pub fn forget(base: usize, len: usize) {
+        crate::sim::flush_range(base, len);
         with(|h, _t| {
             forget_in(h, base, len);
             None
         })
     }
-    /// release edge carried by a token (thread spawn, job hand-over, unlock, end of a joined half)
+    /// release edge carried by a token (thread spawn, job hand-over, unlock, end of a joined half).
+    /// In weak-memory mode a release-type operation first drains the thread's store buffer.
     pub fn release_token() -> VC {
+        crate::sim::flush_mine();
+        release_token_buffered()
+    }
+    /// as `release_token` but without draining the store buffer (the operation itself is going
+    /// to be buffered behind the pending stores)
+    pub fn release_token_buffered() -> VC {
         if !crate::sim::active() {
             return Vec::new();
         }
